@@ -79,7 +79,7 @@ def run(ctx):
     maxops = 9 if thorough else 4
     ctx.tlc("GlobalState", {"MaxOps": maxops + 1, "Fault": "none", "EmitCases": False}, invariants=invs, view="LastOnly")
     ctx.tlc("GlobalState", {"MaxOps": 2, "Fault": "none", "EmitCases": False}, invariants=invs, coverage=True, count=False)
-    ctx.require_actions(["SetMC", "RestoreMC", "ClearCache", "SetUseCache", "ParseOther", "MakeTRS", "Mutate", "Hold", "UseCfg", "AskLayout", "DryRun", "Probe"])
+    ctx.require_actions(["SetMC", "RestoreMC", "ClearCache", "SetUseCache", "ParseOther", "MakeTRS", "Mutate", "Hold", "UseCfg", "AskLayout", "DryRun", "BadConfig", "Probe"])
     for fault in ("share_dict", "freeze_default", "held_keeps_defaults", "cfg_obj_written", "layout_remembered", "dry_run_leaves_flags"):
         ctx.tlc("GlobalState", {"MaxOps": 3, "Fault": fault, "EmitCases": False}, invariants=invs, expect_violation=fault,
                 count=False)
@@ -106,7 +106,7 @@ def run(ctx):
         cases.append({"id": "m%d" % len(seen_sim), "kind": "c15", "abs": {}, "args": {"ops": c["ops"]}})
     ctx.notes["simulated_behaviours"] = len(seen_sim)
     # longer random histories ending in several probes
-    names = ["set_mc", "restore_mc", "clear_cache", "use_cache", "parse_other", "make_trs", "mutate", "probe", "hold", "use_cfg", "ask_layout", "dry_run"]
+    names = ["set_mc", "restore_mc", "clear_cache", "use_cache", "parse_other", "make_trs", "mutate", "probe", "hold", "use_cfg", "ask_layout", "dry_run", "bad_config", "bad_config"]
     vias = ["trs_to_dict_str", "trs_to_dict_obj", "tract_to_dict", "tracts_to_dict", "tracts_to_list", "flag_lists"]
     for n in range(3000 if thorough else 400):
         ops = []
